@@ -531,6 +531,11 @@ def generate_malformed(seed, n):
             ('wrong-user', None),
             ('too-few-jobs', [base(1), base(2)]),
             ('both-groups', [dict(base(1), group_rel=1), base(2), base(3)]),
+            ('fractional-parent-just-below-own-id', [base(1), base(2), base(3, parents_rel=[2.6])]),
+            ('fractional-absolute-parent', [base(1), base(2, parents_abs=[1.5]), base(3)]),
+            ('fractional-job-id', [base(1), base(2.0), base(3)]),
+            ('boolean-parent', [base(1), base(2, parents_rel=[True]), base(3)]),
+            ('string-parent', [base(1), base(2, parents_rel=['1']), base(3)]),
         ]
         name, jobs = variants[i % len(variants)]
         if name == 'wrong-user':
